@@ -30,12 +30,14 @@ CONSTANTS Files,        \* file ids 1..n; the id is the rank of the path under s
           Sizes, Align, MaxCuts, MaxArgs,
           Dedupe, EmptyEntries, TruncateOnRestore, ClosedIntervals, EmitInstances
 
-Dir == 0   \* a path argument that is the directory holding every file
+Dir == 0     \* a path argument: the directory "tree" that holds every file except those of InDir2
+Dir2 == 100  \* a path argument: the sibling directory "tree-2" (its path has Dir's path as a string prefix, not as a parent)
+InDir2 == {1}  \* "tree-2/..." sorts before "tree/...": the file of lowest rank lives in the sibling directory
 
 VARIABLES stage, size, args, cuts, pre
 vars == <<stage, size, args, cuts, pre>>
 
-ArgFiles(a) == IF a = Dir THEN Files ELSE {a}
+ArgFiles(a) == IF a = Dir THEN Files \ InDir2 ELSE IF a = Dir2 THEN InDir2 ELSE {a}
 Wanted == UNION {ArgFiles(args[i]) : i \in 1..Len(args)}                   \* Reached(args) as a set
 \* the flat list as the code builds it: one entry per (argument, file) pair
 RECURSIVE FlatFrom(_)
@@ -87,7 +89,7 @@ TilingHolds == stage = "done" =>
 
 Init == stage = "sizes" /\ size = [f \in Files |-> 0] /\ args = <<>> /\ cuts = {} /\ pre = [f \in Files |-> "absent"]
 PickSizes == stage = "sizes" /\ \E s \in [Files -> Sizes] : size' = s /\ stage' = "args" /\ UNCHANGED <<args, cuts, pre>>
-PickArgs == stage = "args" /\ \E n \in 1..MaxArgs : \E a \in [1..n -> Files \cup {Dir}] : args' = a /\ stage' = "pre" /\ UNCHANGED <<size, cuts, pre>>
+PickArgs == stage = "args" /\ \E n \in 1..MaxArgs : \E a \in [1..n -> Files \cup {Dir, Dir2}] : args' = a /\ stage' = "pre" /\ UNCHANGED <<size, cuts, pre>>
 PickPre == stage = "pre" /\ \E p \in [Files -> {"absent", "shorter", "same", "longer"}] :
               /\ \A f \in Files : (f \notin Wanted => p[f] = "absent") /\ (p[f] = "shorter" => size[f] > 0)
               /\ pre' = p /\ stage' = "cuts" /\ UNCHANGED <<size, args, cuts>>
